@@ -398,7 +398,43 @@ impl Subject for SLong {
     }
 }
 
-const KINDS: [&str; 11] = [
+/// a strongly non-uniform (geometric) axis and a 300-element batch: behaviour that adapts to
+/// the number of lookups or to how often the O(1) guess misses only shows after many lookups
+fn geo_axis() -> Vec<f64> {
+    (0..12).map(|i| 1.5f64.powi(i)).collect()
+}
+struct SGeo {
+    ip: Interp1D<OwnedRepr<f64>, OwnedRepr<f64>, Ix2, Linear>,
+}
+impl Subject for SGeo {
+    fn op(&self, op: usize) -> Outcome {
+        let x = geo_axis();
+        let n = x.len();
+        let inside = |i: usize, t: f64| x[i] + t * (x[i + 1] - x[i]);
+        match op {
+            0 => outcome(call1d(&self.ip, &[inside(n - 2, 0.4)], &[1], 2, "interp")),
+            1 => outcome(call1d(&self.ip, &[x[6]], &[1], 2, "interp")),
+            2 => outcome(call1d(&self.ip, &[inside(0, 0.5)], &[1], 2, "interp")),
+            3 => outcome(call1d(&self.ip, &[x[n - 1] + 100.0], &[1], 2, "interp")),
+            4 => outcome(call1d(&self.ip, &[f64::NAN], &[1], 2, "interp")),
+            5 | 8 | 10 => {
+                // 300 in-range queries over all segments (the guess misses for most of them)
+                let q: Vec<f64> = (0..300).map(|k| inside(k % (n - 1), 0.1 + 0.8 * ((k * 7) % 10) as f64 / 10.0)).collect();
+                outcome(call1d(&self.ip, &q, &[300], 2, if op == 10 { "interp_array_into/dyn" } else { "interp_array/static" }))
+            }
+            6 => outcome(call1d(&self.ip, &[inside(3, 0.5), -1e9], &[2], 2, "interp_array/static")),
+            9 => outcome(call1d(&self.ip, &[inside(n - 2, 0.9)], &[1], 2, "interp_into")),
+            13 => outcome(call1d(&self.ip, &[x[n - 1]], &[1], 2, "interp")),
+            14 => outcome(call1d(&self.ip, &[x[0]], &[1], 2, "interp")),
+            _ => outcome(call1d(&self.ip, &[inside(n - 2, 0.25), inside(n - 3, 0.75)], &[2], 2, "interp_array/dyn")),
+        }
+    }
+    fn fingerprint(&self) -> u64 {
+        fnv(&format!("{:?}", self.ip))
+    }
+}
+
+const KINDS: [&str; 12] = [
     "Linear",
     "Linear+extrapolate",
     "CubicSpline/NotAKnot",
@@ -410,6 +446,7 @@ const KINDS: [&str; 11] = [
     "Linear/scalar(1-d data)",
     "Bilinear/scalar(2-d data)",
     "Linear/long axis (70 knots)",
+    "Linear/geometric axis, 300-element batches",
 ];
 
 fn build(kind: usize) -> Box<dyn Subject> {
@@ -440,10 +477,15 @@ fn build(kind: usize) -> Box<dyn Subject> {
             ip: build_bilinear::<f64, Ix2>(Some(&AX), Some(&AY), data2(0.0).index_axis(ndarray::Axis(2), 0).to_owned(), false).expect("valid build"),
             sib: build_bilinear::<f64, Ix2>(Some(&AX_SIB), Some(&AY), data2(0.5).index_axis(ndarray::Axis(2), 1).to_owned(), false).expect("valid build"),
         }),
-        _ => {
+        10 => {
             let x = long_axis(0.1);
             let d = Array2::from_shape_fn((70, 2), |(i, j)| ((i * 2 + j) as f64 * 0.37).sin() + 0.01 * i as f64);
             Box::new(SLong { ip: build_linear::<f64, Ix2>(Some(&x), d, true).expect("valid build") })
+        }
+        _ => {
+            let x = geo_axis();
+            let d = Array2::from_shape_fn((x.len(), 2), |(i, j)| ((i * 2 + j) as f64 * 0.37).sin() * 3.0 + 0.3 * i as f64);
+            Box::new(SGeo { ip: build_linear::<f64, Ix2>(Some(&x), d, false).expect("valid build") })
         }
     }
 }
@@ -712,7 +754,7 @@ fn body(ctx: &Ctx) -> (Summary, Meta) {
             cands.push(t.iter().map(|&o| vec![o]).collect());
         }
         if kind >= 8 && kind != 10 {
-            continue; // the scalar kinds share their query path with kinds 0 and 6
+            continue; // the scalar kinds share their query path with kinds 0 and 6; kind 11 is for histories
         }
         if kind == 10 {
             cands = vec![vec![vec![1], vec![0]], vec![vec![0], vec![2]], vec![vec![5], vec![1]], vec![vec![1], vec![0], vec![2]]];
